@@ -154,6 +154,9 @@ func (r *Runner) Evaluate(sc Scenario, pushedPlain map[int]bool) {
 		c.Count("served." + sv.Kind)
 	}
 	c.Count(fmt.Sprintf("channels.%d", len(sc.C0)))
+	if sc.NoState {
+		c.Count("scenario.first-start-without-stored-state")
+	}
 	for ch := range sc.C0 {
 		switch _, met := out.World.Created[ch]; {
 		case met:
@@ -546,6 +549,11 @@ func Fixed() []Scenario {
 		{P0: 10, Q0: 0, C0: map[int64]int{5: 5, 8: 20}, Fresh: map[int64]bool{8: true}, Late: map[int64]bool{5: true, 8: true}, Log: []Entry{{ID: 1, Kind: KChMsg, Chan: 5, Pos: 6, Count: 1}, {ID: 2, Kind: KChMsg, Chan: 8, Pos: 21, Count: 1},
 			{ID: 3, Kind: KChMsg, Chan: 5, Pos: 7, Count: 1}, {ID: 4, Kind: KChMsg, Chan: 8, Pos: 22, Count: 1}},
 			Actions: []Action{{Op: "p", IDs: []int{1}}, {Op: "p", IDs: []int{2}}, {Op: "K", C: 5}, {Op: "K", C: 8}, {Op: "p", IDs: []int{3}}, {Op: "p", IDs: []int{4}}}},
+		// the very first start: nothing stored, two updates have already happened; the server's state at
+		// that moment is taken over and written, everything after it is delivered
+		{P0: 10, Q0: 0, C0: map[int64]int{5: 5}, NoState: true, Pre: 3, Log: []Entry{{ID: 1, Kind: KMsg, Pos: 11, Count: 1}, {ID: 2, Kind: KQts, Pos: 1, Count: 1}, {ID: 3, Kind: KMsg, Pos: 12, Count: 1},
+			{ID: 4, Kind: KMsg, Pos: 13, Count: 1}, {ID: 5, Kind: KQts, Pos: 2, Count: 1}, {ID: 6, Kind: KChMsg, Chan: 5, Pos: 6, Count: 1}},
+			Actions: []Action{{Op: "p", IDs: []int{4}}, {Op: "e", N: 2}, {Op: "T"}}},
 		// a channel becomes inaccessible: its next difference is answered CHANNEL_PRIVATE, the worker reports
 		// it and stops, the main loop forgets the channel. An update met while it is still inaccessible
 		// starts a worker that stops at once; when it is accessible again the new worker starts from the
